@@ -68,7 +68,9 @@ class C07System(BuilderSystem):
                 ["probe", ["towards"], {"z": -1, "F": g2, "S": g3}], ["probe", ["away"], {"z": -9, "F": g1}],
                 ["move_absolute", [], {"x": 3, "f": g1, "s": 300}], ["set_axis", [], {"x": 77, "E": 3}], ["set_axis", [], {"E": 1}],
                 ["set_hotend_temperature", [g2]], ["set_hotend_temperature", [200]], ["halt", ["wait-for-hotend"], {"S": 200}],
-                ["halt", ["wait-for-hotend"], {"S": g1}], ["coolant_on", ["mist"]], ["coolant_off"], ["tool_change", ["manual", 1]],
+                ["halt", ["wait-for-hotend"], {"S": g1}], ["set_bed_temperature", [150]], ["set_bed_temperature", [g2]],
+                ["set_chamber_temperature", [150]], ["halt", ["wait-for-bed"], {"S": 150}], ["halt", ["wait-for-chamber"], {"R": 150}],
+                ["coolant_on", ["mist"]], ["coolant_off"], ["tool_change", ["manual", 1]],
                 ["set_distance_mode", ["relative"]], ["set_distance_mode", ["absolute"]], ["pause"],
             ]
         for v in (g0, g2, g3):
